@@ -109,7 +109,7 @@ def _code_default_plain_typ(ir):
     return False
 
 
-TOL["KF-RT-code-default-drops-type"] = lambda k, w, c, ir, o: c == "typ-lost" and k in ("class", "function", "method") \
+TOL["KF-RT-code-default-drops-type"] = lambda k, w, c, ir, o: c == "typ-lost" and (k in ("function", "method") or (k == "class" and w != "returns")) \
     and isinstance(_entry(ir, w).get("default"), str) and _entry(ir, w)["default"].startswith("```") and "[" not in (_entry(ir, w).get("typ") or "")
 TOL_EXC = {
     "KF-RT-code-default-literal-eval-crash": lambda k, ir, exc: exc == "ValueError" and _code_default_plain_typ(ir)
